@@ -514,6 +514,13 @@ fn run_in_child(world: &World, plan: &Plan, probes: &Probes, seed: u64, replay: 
 		if let Err(e) = chain.validate(false) {
 			viols.push(("final-validate-failed".into(), format!("{:?}", e)));
 		}
+		// every thread is done and nothing is open here: no LMDB environment may still count an open
+		// transaction (the next map resize would wait for it forever, with the chain locks held)
+		for (path, n) in grin_store::lmdb::verif_open_txs_counts() {
+			if n != 0 {
+				viols.push(("open-transaction-count-leaked".into(), format!("all threads have finished but environment {} still counts {} open transaction(s): the next resize of its map can never start", path.rsplit('/').take(2).collect::<Vec<_>>().join("/"), n)));
+			}
+		}
 		// unspent view equals the ledger of the final head
 		if let Ok(h) = chain.head() {
 			if let Some(id) = world.id_of_hash(&h.last_block_h) {
